@@ -179,7 +179,7 @@ def is_repo_class(cls):
 
 
 def has_sym(v, depth=0):
-    if type(v) is Sym or type(v) is SObj or type(v) is NDArr:
+    if type(v) is Sym or type(v) is SObj or type(v) is NDArr or type(v).__module__ == "pyvc.shapely_model":
         return True
     if depth > 3:
         return False
@@ -200,6 +200,9 @@ class Interp:
         from . import libmodels
 
         self.models = libmodels.build_models()
+        from . import shapely_model
+
+        shapely_model.install(self.models)
         if models:
             self.models.update(models)
         self.summaries = summaries or {}  # qualname -> callable(interp, args, kwargs) -> value
@@ -281,6 +284,8 @@ class Interp:
 
     def bind(self, attr, obj, defcls):
         if isinstance(attr, types.FunctionType):
+            if attr.__name__ == "__init__" and attr.__code__.co_filename.startswith("<") and dataclasses.is_dataclass(defcls):
+                return BoundMethod(ModelFn(lambda it, args, kw: it.dataclass_init(args[0], defcls, list(args[1:]), kw), "dataclass.__init__"), obj)
             if attr in self.models:
                 return BoundMethod(ModelFn(self.models[attr], attr.__name__), obj)
             return BoundMethod(closure_of(attr, defcls), obj)
@@ -516,6 +521,10 @@ class Interp:
             from . import libmodels
 
             return libmodels.ndarray_attr(self, obj, name)
+        if type(obj).__name__ in ("Geom", "_Exterior", "_Coords") and type(obj).__module__ == "pyvc.shapely_model":
+            from . import shapely_model
+
+            return shapely_model.geom_attr(self, obj, name)
         if type(obj) is Sym:
             from . import libmodels
 
@@ -720,8 +729,9 @@ class Interp:
             self.assign(t, self.binop(type(st.op), cur, self.eval(st.value, fr), inplace=True), fr)
         elif isinstance(t, ast.Attribute):
             o = self.eval(t.value, fr)
-            cur = self.getattr(o, t.attr)
-            self.setattr(o, t.attr, self.binop(type(st.op), cur, self.eval(st.value, fr), inplace=True))
+            an = self.mangle(t.attr, fr)
+            cur = self.getattr(o, an)
+            self.setattr(o, an, self.binop(type(st.op), cur, self.eval(st.value, fr), inplace=True))
         elif isinstance(t, ast.Subscript):
             o = self.eval(t.value, fr)
             i = self.eval_index(t.slice, fr)
@@ -738,7 +748,7 @@ class Interp:
                 else:
                     raise PyExc(UnboundLocalError, (t.id,))
             elif isinstance(t, ast.Attribute):
-                self.delattr(self.eval(t.value, fr), t.attr)
+                self.delattr(self.eval(t.value, fr), self.mangle(t.attr, fr))
             elif isinstance(t, ast.Subscript):
                 o = self.eval(t.value, fr)
                 i = self.eval_index(t.slice, fr)
@@ -959,7 +969,7 @@ class Interp:
                         return
             fr.env[target.id] = v
         elif isinstance(target, ast.Attribute):
-            self.setattr(self.eval(target.value, fr), target.attr, v)
+            self.setattr(self.eval(target.value, fr), self.mangle(target.attr, fr), v)
         elif isinstance(target, ast.Subscript):
             o = self.eval(target.value, fr)
             self.setitem(o, self.eval_index(target.slice, fr), v)
@@ -1020,9 +1030,14 @@ class Interp:
     def ex_Name(self, node, fr):
         return self.load_name(node.id, fr)
 
+    def mangle(self, name, fr):
+        if name.startswith("__") and not name.endswith("__") and fr.closure is not None and fr.closure.defcls is not None:
+            return "_" + fr.closure.defcls.__name__.lstrip("_") + name
+        return name
+
     def ex_Attribute(self, node, fr):
         o = self.eval(node.value, fr)
-        return self.getattr(o, node.attr, node)
+        return self.getattr(o, self.mangle(node.attr, fr), node)
 
     def ex_Tuple(self, node, fr):
         return tuple(self._elts(node.elts, fr))
